@@ -41,6 +41,7 @@ type c20Event struct {
 	C       string      `json:"c"`
 	Name    string      `json:"name,omitempty"`
 	Val     string      `json:"val,omitempty"`
+	Form    string      `json:"form,omitempty"` // setnames: "plain" = SET NAMES x, "collate" = SET NAMES x COLLATE y
 	Fail    string      `json:"fail,omitempty"`
 	Txfail  string      `json:"txfail,omitempty"`
 	Conn    string      `json:"conn,omitempty"`
@@ -112,6 +113,16 @@ func c20SetSQL(e *c20Event) (string, error) {
 		if !ok {
 			return "", fmt.Errorf("unknown cs value %q", e.Val)
 		}
+		switch e.Form {
+		case "plain":
+			if cs[1] != c20DefaultCollation(cs[0]) {
+				return "", fmt.Errorf("plain SET NAMES cannot request %s/%s", cs[0], cs[1])
+			}
+			return "set names " + cs[0], nil
+		case "collate":
+			return "set names " + cs[0] + " collate " + cs[1], nil
+		}
+		// cases recorded before the form was part of the event
 		if cs[1] == c20DefaultCollation(cs[0]) && e.Val != "d" {
 			return "set names " + cs[0], nil
 		}
@@ -685,7 +696,7 @@ func (r *c20Run) run() {
 				return
 			}
 			err = r.clientCmd(e.C, sql)
-			tl := map[string]interface{}{"ev": e.Ev, "c": e.C, "val": e.Val, "name": e.Name, "ok": err == nil}
+			tl := map[string]interface{}{"ev": e.Ev, "c": e.C, "val": e.Val, "name": e.Name, "form": e.Form, "ok": err == nil}
 			r.tr(tl)
 			if err != nil {
 				r.driftf("client-set-refused-by-proxy", "event %d: %q: %v", i, sql, err)
